@@ -23,7 +23,9 @@ def run(ctx):
     from . import r_word as RW
     RW.record_source_unchanged(ctx, "R02.g")
     RW.normalize_next_lengths(ctx, "R02.h")
-    return info("R02.g: Record::new tokenises its `source` parameter as it is and stores the result; R02.h: Normalize::next tries every prefix of the window (lengths window.len()..1) on every path that yields an item. "
+    from . import C20 as _RC20
+    _RC20.api_effects(ctx, "R02.i", which=("add", "markers"))
+    return info("R02.i: add_record really adds the record to the addressed store; highlight_with really hands the markers to the store on every call (the registry API is not exercised by the repository's tests). R02.g: Record::new tokenises its `source` parameter as it is and stores the result; R02.h: Normalize::next tries every prefix of the window (lengths window.len()..1) on every path that yields an item. "
                 "R02.a: every return path of the title builder returns the one String that passed retain(ch != '\\0') after its "
                 "last write; R02.c: the copied slices of hit.title.source tile [0, len) on every path; R09.a: markers are confined to "
                 "left/slice/right triples; R02.b: id provenance record_id -> Record.id -> Hit.id -> SearchResult.id of the same hit, "
